@@ -294,6 +294,12 @@ NestFam ==
    Un(<<P(1), P(2)>>), Un(<<P(2), P(1)>>), Un(<<A1, P(1)>>), Un(<<P(1), A1>>), A1,
    Rec(<<"a", "a">>, <<P(1), P(2)>>)}           \* duplicate field: an error, no state change
 
+\* Sub-families for longer histories.
+NamedSmall == {A1, A2, Rec(<<"a", "b">>, <<A1, A1>>), Rec(<<"a", "b">>, <<A1, A2>>), NN,
+               Rec(<<"a", "b">>, <<NN, A1>>), Rec(<<"a", "b">>, <<NN, NN>>), Un(<<A2, A1>>)}
+NestSmall == {RA, Arr(RA), Un(<<RA, Arr(RA)>>), Un(<<Arr(RA), RA>>), Un(<<P(1), P(2)>>), Un(<<P(2), P(1)>>),
+              MapOf(RA, Un(<<P(2), P(1)>>)), En(<<"s">>)}
+
 \* Two named types CompareTypes cannot tell apart, listed in both orders.
 TieFam == {A1, Nm("m", P(1)), XY, Un(<<XY, A1>>), Un(<<A1, XY>>), Un(<<A1, P(1)>>), Un(<<P(1), A1>>)}
 
@@ -324,6 +330,8 @@ Targets == CASE Family = "level1" -> Level1
              [] Family = "named"  -> NamedFam
              [] Family = "nest"   -> NestFam
              [] Family = "tie"    -> TieFam
+             [] Family = "named-small" -> NamedSmall
+             [] Family = "nest-small"  -> NestSmall
              [] Family = "cmp"    -> CmpFam
              [] Family = "conc"   -> ConcFam
              [] Family = "conc-small" -> ConcSmall
